@@ -1016,13 +1016,16 @@ def run(ctx):
         ctx.notes.append('K14b witness no longer reproduces')
     # corpus: repaired defects and minimised past failures
     corpus = corpus_specs()
+    names = {c['name'] for c in corpus}
     if os.path.isdir(CORPUS_DIR):
         for fn in sorted(os.listdir(CORPUS_DIR)):
             if fn.endswith('.json'):
                 try:
-                    corpus.append(json.load(open(os.path.join(CORPUS_DIR, fn)))['spec'])
+                    sp = json.load(open(os.path.join(CORPUS_DIR, fn)))['spec']
                 except Exception:
-                    pass
+                    continue
+                if sp.get('name') not in names:
+                    corpus.append(sp); names.add(sp.get('name'))
     run_specs(ctx, 'corpus', corpus + [k14b_spec()])
     run_specs(ctx, 'errors', error_specs(ctx.rng))
     run_specs(ctx, 'malformed', malformed_specs(ctx.rng))
